@@ -1,6 +1,6 @@
 """C04 - trust anchors enforced for attestation certificate chains."""
 import json
-from harness import fw, impl, authsim, regsim, regcat, regrun, oracle
+from harness import authcat, fw, impl, authsim, regsim, regcat, regrun, oracle
 
 TRUSTED = [
     "Coq 8.16.1 kernel; C04 theorems: which anchors are handed to the chain validator per format (isolation), that an accepted x5c registration went through it, pass-through only with no anchors",
@@ -57,7 +57,7 @@ def run(tier, seed):
                     ni = 0
                 s = regsim.RScn(fmt, "ES256-P256")
                 s.n_inter = ni
-                f(s, rng)
+                authcat.apply(regcat.CHAIN_FAULTS, name, s, scope=f"c04:{fmt}:")
                 pd, reg = regsim.build(s)
                 B.run_case(regrun.policy_of(pd), reg, "dict", "reject", f"{name}/{fmt}/inter={s.n_inter}", scn=s)
                 if fmt in PASSTHROUGH and name not in regcat.NO_PASSTHROUGH_VARIANT:
